@@ -333,6 +333,8 @@ class Interp:
                 if len(args) > 2:
                     return args[2]
                 raise Raised("AttributeError", e)
+            if n == "iter" and len(args) == 1:
+                return GenResult(list(args[0]))
             if n == "next":
                 it0 = args[0]
                 if isinstance(it0, GenResult):
